@@ -1,4 +1,5 @@
 SPECIFICATION Spec
+INVARIANT HazardReport
 INVARIANT Report
 POSTCONDITION Consumed
 CHECK_DEADLOCK FALSE
